@@ -2,8 +2,11 @@ package c24
 
 import (
 	"encoding/binary"
+	"errors"
 	"fmt"
+	"github.com/openfga/openfga/pkg/tuple"
 	"strings"
+	"sync/atomic"
 
 	"github.com/cespare/xxhash/v2"
 	openfgav1 "github.com/openfga/api/proto/openfga/v1"
@@ -643,6 +646,13 @@ func (in edgeIn) observe(o *observer) (observation, bool) {
 		TupleKey:         &openfgav1.TupleKey{Object: in.object, Relation: in.reqRelation, User: in.user},
 		ContextualTuples: pbTuples(in.tuples), Context: pbCtx(in.ctx)})
 	if err != nil {
+		// since fix 0f98983 the weighted-graph request constructor validates the shape of contextual
+		// tuples: the malformed ones of this adversarial arena never reach a cache key any more
+		var ite *tuple.InvalidTupleError
+		if errors.As(err, &ite) {
+			rejectedByRequestValidation.Add(1)
+			return observation{}, false
+		}
 		o.errs = append(o.errs, fmt.Sprintf("edge: NewRequest rejected generated input %s: %v", in.describe(), err))
 		return observation{}, false
 	}
@@ -665,3 +675,6 @@ func (in edgeIn) shape() string {
 	a.ctx(in.ctx)
 	return fmt.Sprintf("edge new=%v type=%d %s %s", in.viaNewRequest, in.edgeType, ts, a)
 }
+
+// rejectedByRequestValidation counts arena inputs the request constructor refuses (malformed contextual tuples).
+var rejectedByRequestValidation atomic.Int64
